@@ -34,14 +34,48 @@ type RtspCase struct {
 	Codecs gen.Codecs `json:"codecs"`
 	Items  []gen.Item `json:"items"`
 	JoinAt int        `json:"join_at"` // PLAY completes after items[0..JoinAt) were processed (>= SdpAt)
+	// Prev: an earlier incarnation of the same stream name (other tracks / other parameter sets), published to the
+	// end and gone before this one starts: the subscriber must be answered with THIS incarnation's description.
+	Prev *Inc `json:"prev,omitempty"`
+	// Early: DESCRIBE is sent after items[0..JoinAt) even when lal cannot have an SDP of this incarnation yet; the
+	// answer is awaited while the publisher goes on (lal holds the request until the SDP exists).
+	Early bool `json:"early,omitempty"`
 }
 
 func genRtsp(t *rapid.T) RtspCase {
 	var c RtspCase
-	o := gen.StreamOpts{Video: []string{"avc", "avc", "hevc", ""}, Audio: []string{"aac", "aac", "g711a", ""}, MaxGops: 4, MaxGopLen: 6, MaxNalLen: 3000, HeaderChurn: true, MultiNal: true, NoMeta: false}
+	o := gen.StreamOpts{Video: []string{"avc", "avc", "hevc", ""}, Audio: []string{"aac", "aac", "g711a", "g711u", "opus", ""}, MaxGops: 4, MaxGopLen: 6, MaxNalLen: 3000, HeaderChurn: true, MultiNal: true, NoMeta: false,
+		MidMeta: true, MidHeaders: true}
 	c.Codecs, c.Items = gen.GenStream(t, o)
 	c.JoinAt = rapid.IntRange(0, len(c.Items)).Draw(t, "joinAt")
+	if rapid.IntRange(0, 2).Draw(t, "hasPrev") == 0 {
+		cd := gen.GenCodecs(t, o)
+		items := gen.GenItems(t, cd, o, 2)
+		// make the predecessor's parameter sets differ from the ones this incarnation starts with
+		first := -1
+		for _, it := range c.Items {
+			if it.Kind == "vsh" {
+				first = it.Variant
+				break
+			}
+		}
+		if first >= 0 && cd.Video == c.Codecs.Video {
+			for i := range items {
+				for items[i].Kind == "vsh" && sameParamSets(cd.Video, items[i].Variant, first) {
+					items[i].Variant++
+				}
+			}
+		}
+		c.Prev = &Inc{Codecs: cd, Items: items}
+		c.Early = rapid.Bool().Draw(t, "early")
+	}
 	return c
+}
+
+func sameParamSets(codec string, a, b int) bool {
+	v1, s1, p1 := gen.ParamSets(codec, a)
+	v2, s2, p2 := gen.ParamSets(codec, b)
+	return bytes.Equal(v1, v2) && bytes.Equal(s1, s2) && bytes.Equal(p1, p2)
 }
 
 const rtspStream = "c02rtsp"
@@ -88,33 +122,80 @@ func runRtsp(c RtspCase) *pbt.Violation {
 	}
 	s := inproc.New(inproc.Config{})
 	defer s.Close()
+	if c.Prev != nil {
+		// the predecessor: published to its end (with a tail that makes lal describe even a single-track stream), then gone
+		pp := lalclient.NewPublisher(s, "live", rtspStream, 4096)
+		if pp.Err != nil {
+			return pbt.V("publish-refused", "predecessor: %v", pp.Err)
+		}
+		lastTs := uint32(0)
+		for _, it := range c.Prev.Items {
+			if it.Kind != "meta" {
+				lastTs = it.Ts
+			}
+		}
+		for k, it := range append(append([]gen.Item(nil), c.Prev.Items...), markerItems(c.Prev.Codecs, lastTs, 0, 5)...) {
+			if err := pp.SendItem(it, c.Prev.Codecs, 0); err != nil {
+				return pbt.V("publisher-disconnected", "predecessor item %d: %v", k, err)
+			}
+		}
+		pp.WaitIdle()
+		if v := s.PanicViolation(); v != nil {
+			return v
+		}
+		pp.Close()
+		pp.Conn.WaitPeerDone(lalclient.IdleTimeout)
+	}
 	p := lalclient.NewPublisher(s, "live", rtspStream, 4096)
 	if p.Err != nil {
 		return pbt.V("publish-refused", "%v", p.Err)
 	}
-	vshInForce := -1
-	for k := 0; k < join; k++ {
-		if c.Items[k].Kind == "vsh" {
-			vshInForce = k
-		}
-		if err := p.SendItem(c.Items[k], c.Codecs, 0); err != nil {
-			return pbt.V("publisher-disconnected", "item %d: %v", k, err)
-		}
+	describeAt := join
+	if c.Early && c.Prev != nil && c.JoinAt < ready {
+		describeAt = c.JoinAt
 	}
-	p.WaitIdle()
-	if v := s.PanicViolation(); v != nil {
+	vshInForce := -1
+	send := func(from, to int) *pbt.Violation {
+		for k := from; k < to; k++ {
+			if c.Items[k].Kind == "vsh" {
+				vshInForce = k
+			}
+			if err := p.SendItem(c.Items[k], c.Codecs, 0); err != nil {
+				return pbt.V("publisher-disconnected", "item %d: %v", k, err)
+			}
+		}
+		p.WaitIdle()
+		return s.PanicViolation()
+	}
+	if v := send(0, describeAt); v != nil {
 		return v
 	}
 	conn := s.RtspConn()
 	_ = conn.SetReadDeadline(time.Now().Add(lalclient.DeliverTimeout))
 	cl := rtspref.NewClient(conn)
 	uri := "rtsp://127.0.0.1:5544/live/" + rtspStream
-	r, err := cl.Describe(uri)
+	var r *rtspref.Response
+	var err error
+	if describeAt < join {
+		// the request is in lal's hands before this incarnation can be described; the answer must be this incarnation's
+		if r, err = cl.Do("OPTIONS", uri, nil, nil); err == nil {
+			_, err = cl.WriteRequest("DESCRIBE", uri, map[string]string{"Accept": "application/sdp"}, nil)
+		}
+		if err == nil {
+			conn.WaitPeerIdle(lalclient.IdleTimeout)
+			if v := send(describeAt, join); v != nil {
+				return v
+			}
+			r, err = cl.ReadResponse()
+		}
+	} else {
+		r, err = cl.Describe(uri)
+	}
 	if err != nil || r.Status != 200 {
 		if v := s.PanicViolation(); v != nil {
 			return v
 		}
-		return pbt.V("R1/describe-not-answered", "DESCRIBE after %d published messages (SDP expected after %d): err=%v response=%+v", join, ready, err, r)
+		return pbt.V("R1/describe-not-answered", "DESCRIBE after %d published messages (SDP expected after %d): err=%v response=%+v", describeAt, ready, err, r)
 	}
 	sess, err := sdpref.Parse(r.Body)
 	if err != nil {
@@ -132,6 +213,12 @@ func runRtsp(c RtspCase) *pbt.Violation {
 		if tracks[i].MediaType == "audio" {
 			at = &tracks[i]
 		}
+	}
+	if c.Codecs.Video == "" && vt != nil {
+		return pbt.V("R1/sdp-stale-track", "this incarnation carries no video (codecs %+v) but the SDP has a video section:\n%s", c.Codecs, r.Body)
+	}
+	if c.Codecs.Audio == "" && at != nil {
+		return pbt.V("R1/sdp-stale-track", "this incarnation carries no audio (codecs %+v) but the SDP has an audio section:\n%s", c.Codecs, r.Body)
 	}
 	if c.Codecs.Video != "" {
 		if vt == nil {
@@ -335,7 +422,17 @@ func min(a, b int) int {
 
 func classifyRtsp(c RtspCase) (bool, []string) {
 	labels := []string{"shape:" + shape(c.Codecs)}
+	if c.Prev != nil {
+		labels = append(labels, "second-incarnation")
+		a, b := c.Prev.Codecs, c.Codecs
+		if (a.Video == "") != (b.Video == "") || (a.Audio == "") != (b.Audio == "") || a.Video != b.Video {
+			labels = append(labels, "second-incarnation:other-tracks")
+		}
+	}
 	ready := sdpReadyAt(c)
+	if c.Prev != nil && c.Early && ready >= 0 && c.JoinAt < ready {
+		labels = append(labels, "describe-before-sdp-exists")
+	}
 	if ready < 0 {
 		return false, append(labels, "no-sdp-yet")
 	}
@@ -373,7 +470,7 @@ func classifyRtsp(c RtspCase) (bool, []string) {
 		labels = append(labels, "header-changed-before-join")
 		nt = true
 	}
-	if c.Codecs.Video == "" {
+	if c.Codecs.Video == "" || c.Prev != nil {
 		nt = true
 	}
 	return nt, labels
